@@ -384,70 +384,77 @@ class Bus {
 
   /** called from ppoll: schedule the next foreign byte(s) when nothing is on its way */
   void pump(int64_t horizon) {
-    if (!g.rx.empty() && !(hostArbPending && g.rx.size() == 1)) return;
+    // 1. a pending arbitration byte of the host: collides with a foreign master that starts in this slot, or stands alone
+    if (hostArbPending || enhArbPending) {
+      bool foreignStarts = !script.empty() && script.front().kind == Item::TELEGRAM && script.front().arbitrates && itemPos == 0 &&
+                           script.front().gap == 0 && !script.front().bytes.empty();
+      if (foreignStarts) {
+        Item& it = script.front();
+        resolveArbitration(it.bytes[0], std::max(lastByteTime, g.now) + SYM);
+        itemPos++;
+        if (itemPos >= it.bytes.size()) { script.pop_front(); itemPos = 0; }
+        foreignLostArb = false;
+      } else {
+        settleHostArb();
+      }
+      return;
+    }
+    if (!g.rx.empty()) return;
     if (awaitHostAnswer) {
-      if (g.now + 0 >= answerDeadline && g.rx.empty()) finishAnswer(true);
-      else if (g.rx.empty()) return;   // wait (host has until the deadline)
-      if (awaitHostAnswer) return;
+      if (g.now >= answerDeadline) finishAnswer(true);
+      else return;      // the host has until the deadline to react
+    }
+    // 2. the host transmits its own telegram: the script waits; only the sync generator watches for silence
+    if (hostOwnsBus) {
+      if (autoSyn && lastByteTime + nextAutoSynAfter <= horizon) emitSyn(std::max(lastByteTime + nextAutoSynAfter, g.now));
+      return;
     }
     int n = 1;
     if (burst > 1 && rng) n = 1 + (int)rng->below((uint32_t)burst);
     size_t rxBefore = g.rx.size();
-    int64_t deliverAt = -1;
-    std::vector<size_t> idxs;
+    int taken = 0;
     while (n-- > 0) {
       if (script.empty()) {
-        if (!idxs.empty()) break;
-        if (autoSyn && autoSynBudget > 0 && lastByteTime + nextAutoSynAfter <= horizon && g.rx.empty()) {
+        if (taken) break;
+        if (autoSyn && autoSynBudget > 0 && lastByteTime + nextAutoSynAfter <= horizon) {
           autoSynBudget--;
-          int64_t t = std::max(lastByteTime + nextAutoSynAfter, g.now);
-          emitSyn(t);
+          emitSyn(std::max(lastByteTime + nextAutoSynAfter, g.now));
         }
-        return;
+        break;
       }
       Item& it = script.front();
       // an arrival burst never spans a silent gap (that would hide the gap from the host)
-      if (!idxs.empty() && (it.kind == Item::GAP || pendingGap || (it.kind != Item::SYN && itemPos == 0 && it.gap > 0)
-          || (it.kind != Item::SYN && it.kind != Item::GAP && itemPos < it.gaps.size() && it.gaps[itemPos] > 0) || (it.kind == Item::SYN && it.gap > 10 * MS))) break;
-      idxs.push_back(log.size());
+      if (taken && (it.kind == Item::GAP || pendingGap || (it.kind != Item::SYN && itemPos == 0 && it.gap > 0)
+          || (it.kind != Item::SYN && itemPos < it.gaps.size() && it.gaps[itemPos] > 0) || (it.kind == Item::SYN && it.gap > 10 * MS))) break;
+      taken++;
       if (it.kind == Item::GAP) { lastByteTime = std::max(lastByteTime, g.now) + it.gap; script.pop_front(); pendingGap = true; continue; }
       if (it.kind == Item::SYN) {
         int64_t t = std::max(lastByteTime, g.now) + (it.gap ? it.gap : SYM);
         script.pop_front();
-        emitSyn(t, pendingGap);
+        emitSyn(t);
         pendingGap = false;
-        if (enhanced && enhArbAddr != 0xAA) break;   // the adapter arbitrates now
-        continue;
+        break;      // after a SYN the host may arbitrate: let it react before anything else is scheduled
       }
-      // BYTES / TELEGRAM: one byte at a time
-      if (it.bytes.empty()) { script.pop_front(); continue; }
+      if (it.bytes.empty()) { script.pop_front(); itemPos = 0; continue; }
       size_t k = itemPos;
       uint8_t b = it.bytes[k];
       char org = it.kind == Item::TELEGRAM ? (k < it.origins.size() ? it.origins[k] : 'F') : 'N';
       int64_t extra = k < it.gaps.size() ? it.gaps[k] : 0;
-      bool gapB = extra > 0 || pendingGap || (k == 0 && it.gap > 60 * MS);
       pendingGap = false;
       int64_t t = std::max(lastByteTime, g.now) + SYM + extra + (k == 0 ? it.gap : 0);
-      if (k == 0 && it.kind == Item::TELEGRAM && it.arbitrates && (hostArbPending || (enhanced && enhArbPending))) {
-        resolveArbitration(b, t);
-      } else {
-        if (hostArbPending) settleHostArb();
-        emit(t, b, org, gapB);
-      }
+      emit(t, b, org);
       itemPos++;
-      if (itemPos >= script.front().bytes.size()) {
-        Item done = script.front();
+      if (itemPos >= it.bytes.size()) {
+        Item done = it;
         script.pop_front();
         itemPos = 0;
-        if (done.kind == Item::TELEGRAM && done.expectAnswer && !foreignLostArb) {
+        if (done.kind == Item::TELEGRAM && done.expectAnswer) {
           awaitHostAnswer = true; answerItem = done; answerAttempt = 0; hostAnswerWire.clear();
           answerDeadline = lastByteTime + 40 * MS;
           break;
         }
       }
-      foreignLostArb = false;
     }
-    if (hostArbPending && g.rx.size() <= 1 && (script.empty() || itemPos > 0 || script.front().kind != Item::TELEGRAM)) settleHostArb();
     // burst delivery (adapter/USB latency): everything scheduled in this call arrives together with its last byte
     if (burst > 1) for (size_t i = rxBefore; i < g.rx.size(); i++) g.rx[i].t = g.rx.back().t;
   }
@@ -463,8 +470,7 @@ class Bus {
     tr = Track();
     if (enhanced && enhArbAddr != 0xAA) {
       // the adapter writes the address right after the SYN; resolved against a foreign master in pump()/settle
-      enhArbPending = true;
-      if (script.empty() || script.front().kind != Item::TELEGRAM || !script.front().arbitrates) settleHostArb();
+      enhArbPending = true;     // resolved in pump(): against a foreign master starting in this slot, or alone
     }
   }
 
@@ -515,7 +521,7 @@ class Bus {
     else if (r != foreignQQ) dropForeign();       // both lost
     // else the foreign master won: its remaining bytes follow; its QQ is the byte already on the wire
   }
-  void dropForeign() { foreignLostArb = true; itemPos = script.front().bytes.size() - 1; }   // pump() pops the item
+  void dropForeign() { foreignLostArb = true; if (!script.empty()) itemPos = script.front().bytes.size() - 1; }   // the rest of the foreign telegram is not sent
 
   // ---- reactions to what the host transmits ------------------------------------------------------------------------
   void beginHostExchange() {
